@@ -23,13 +23,18 @@ def normalise(tree: ast.AST) -> ast.AST:
         return t
 
     when `t` is a plain local (not global / nonlocal, not referenced from a nested scope): the path ends at the return, so
-    the binding cannot be observed.  Behaviour is unchanged; the rules then see the
+    the binding cannot be observed; likewise `c = TEST; if c: ...` with c used nowhere else becomes `if TEST: ...`.
+    Behaviour is unchanged; the rules then see the
     returned expression whether or not the author routed it through a local."""
     for fn in ast.walk(tree):
         if not isinstance(fn, (ast.FunctionDef, ast.AsyncFunctionDef)):
             continue
         # names that may be observed outside the straight-line path: declared global / nonlocal, or referenced from a nested scope
         shared: set = set()
+        uses: dict = {}
+        for n in ast.walk(fn):
+            if isinstance(n, ast.Name):
+                uses[n.id] = uses.get(n.id, 0) + 1
         for n in ast.walk(fn):
             if isinstance(n, (ast.Global, ast.Nonlocal)):
                 shared.update(n.names)
@@ -51,6 +56,12 @@ def normalise(tree: ast.AST) -> ast.AST:
                         tgt = a.targets[0].id
                     elif isinstance(a, ast.AnnAssign) and a.value is not None and isinstance(a.target, ast.Name):
                         tgt = a.target.id
+                    if tgt is not None and isinstance(r, ast.If) and isinstance(r.test, ast.Name) and r.test.id == tgt \
+                            and tgt not in shared and uses.get(tgt, 0) == 2:
+                        # c = TEST; if c: ...   (c used nowhere else)  ->  if TEST: ...
+                        r.test = a.value
+                        del lst[i]
+                        continue
                     if tgt is not None and isinstance(r, ast.Return) and isinstance(r.value, ast.Name) and r.value.id == tgt \
                             and tgt not in shared:
                         new = ast.Return(value=a.value)
